@@ -241,6 +241,19 @@ def run(pid, tier, replay=None):
                      "sample of the others and all fixture runs are validated against Fibers.tla directly"]
     binary = vlib.build_harness()
     kfi = kf_index()
+    if pid == "C08" and not replay:
+        # "never spins" at design level: with the histories in the fingerprint the behaviour graph of Sched.tla is a tree
+        # (HistoryGrows), so the exhaustive search terminates exactly when no program within the bounds has an infinite
+        # behaviour of the as-is scheduler (sleep / retry loops included)
+        r = vlib.tlc("MC_Sched", "MC_Sched_noview", workers=min(vlib.NCPU, 12), timeout=1500, heap="24g")
+        if r["timeout"]:
+            v.violation("Sched.tla: the exhaustive search over behaviours does not terminate: some program within 3 fibers x 2 channels x 3 operations "
+                        "makes the as-is scheduler run forever", {"tlc": r["out"][-2000:]})
+        elif "No error has been found" not in r["out"]:
+            raise vlib.ToolError("TLC no-view run failed:\n" + r["out"][-1500:])
+        v.cov["states"] += r["distinct"]
+        v.cov["transitions"] += r["states"]
+        v.notes["no_infinite_behaviour_states"] = r["distinct"]
 
     cases, preds, mode = [], {}, {}
     if replay:
